@@ -22,13 +22,28 @@ func zzCapValue(label string) value.Value {
 	}
 }
 
+// zzCapValueWide: the basic kinds and values of composite signatures (a list of dynamic values, an
+// opaque tuple, an opaque list of strings): capabilities are dynamic values of ANY type.
+func zzCapValueWide(label string) value.Value {
+	switch sym.Choose(label+"-composite", 4) {
+	case 1:
+		return value.List([]value.Value{value.Int(sym.I32(label + "-l0")), value.String(sym.Str(label+"-l1", 2))})
+	case 2:
+		return value.Opaque("(iI)", append(zzLE32(sym.U32(label+"-t0")), zzLE32(sym.U32(label+"-t1"))...))
+	case 3:
+		s := sym.Str(label+"-e0", 2)
+		return value.Opaque("[s]", append(append(zzLE32(1), zzLE32(uint32(len(s)))...), []byte(s)...))
+	}
+	return zzCapValue(label)
+}
+
 // C08CapabilityMap: strict prefixes of an encoded capability map are refused.
 func C08CapabilityMap() {
 	m := CapabilityMap{}
 	n := sym.Choose("entries", 3)
 	keys := []string{KeyUser, "x"}
 	for i := 0; i < n; i++ {
-		m[keys[i]] = zzCapValue("v")
+		m[keys[i]] = zzCapValueWide("v")
 	}
 	var buf bytes.Buffer
 	sym.Assert(WriteCapabilityMap(m, &buf) == nil, "encode-ok")
